@@ -113,6 +113,11 @@ def run(env):
             for size in (list(range(1, 9)) + [32, 64, 96, 130, 256, 600, 1024, 2048] if not env.quick else (1, 2, 3, 8) + ((32, 64, 70) if pstr == "2039" else (128, 530, 1024))):
                 cs = [[str(rnd_member(r, ctx)), str(rnd_member(r, ctx))] for _ in range(size)]
                 st3.append({"ctx": ctx, "op": "km_decryption_factor_many", "args": [str(sk), cs, "x:62", script(r, 64 * size + 256)], "_pk": pk, "tag": "batch"})
+            # batches in which the SAME ciphertext occurs several times (padding): every occurrence has its own factor/proof pair
+            # and each of them must be checked
+            a_, b_, c_ = ([str(rnd_member(r, ctx)), str(rnd_member(r, ctx))] for _ in range(3))
+            for cs in ([a_, b_, a_, c_, a_, b_], [a_, a_], [b_, c_, c_, c_, c_, c_, c_, b_]):
+                st3.append({"ctx": ctx, "op": "km_decryption_factor_many", "args": [str(sk), cs, "x:62", script(r, 64 * len(cs) + 256)], "_pk": pk, "tag": "batch-repeated-ciphertexts"})
     o3 = env.harness(st3)
     st4 = []
     for c, o in zip(st3, o3):
